@@ -1,6 +1,6 @@
 """python3 lib/selftest.py [patch ...]: apply each mutant patch to a scratch worktree of /repo (never to /repo itself),
 run the quick check of the property named by the patch's prefix with VERIF_REPO pointing at it, and report the exit codes.
-Expected: exit 1 (VIOLATION) for Cnn-*.patch, exit 0 for benign-Cnn-*.patch."""
+Expected: exit 1 (VIOLATION) for Cnn-*.patch, exit 0 for patches with "benign" in their name."""
 import glob, os, subprocess, sys, re, shutil
 ROOT = os.path.dirname(os.path.dirname(os.path.abspath(__file__)))
 WT = "/var/tmp/vs/selftest-wt"
@@ -14,7 +14,7 @@ try:
         m = re.match(r"(benign-)?(C\d+)-", name)
         if not m:
             continue
-        prop, benign = m.group(2), bool(m.group(1))
+        prop, benign = m.group(2), "benign" in name
         subprocess.run(["git", "-C", WT, "checkout", "-q", "--", "."], check=True)
         a = subprocess.run(["git", "-C", WT, "apply", os.path.abspath(p)], capture_output=True, text=True)
         if a.returncode != 0:
